@@ -536,6 +536,22 @@ theorem divRoundUp32_least (a b : Int) (ha : 0 ≤ a) (hb : 0 < b) (hov : a + b 
     a ≤ divRoundUp32 a b * b ∧ ∀ q' : Int, a ≤ q' * b → divRoundUp32 a b ≤ q' := by
   rw [divRoundUp32_eq a b ha hb hov]; exact divRoundUp_least a b ha hb
 
+/-- **divRoundUp_narrow**: for the 8- and 16-bit element types the expression `(a + b - 1) / b` is evaluated in `int`
+    (integral promotion), where `a + b - 1 < 2¹⁷` cannot overflow, and its value is at most `a` (for `a ≥ 1`), i.e.
+    it fits the narrow type it is converted back to: the narrow instantiations compute exactly `divRoundUp a b`, the
+    least `q` with `q·b ≥ a`. (Truncating the intermediate sum to the narrow type, `a += b - 1`, does not.) -/
+theorem divRoundUp_narrow (a b top : Int) (ha : 0 ≤ a) (hb : 0 < b) (hat : a ≤ top) (hbt : b ≤ top) (ht : top ≤ 65535) :
+    divRoundUp32 a b = divRoundUp a b ∧ 0 ≤ divRoundUp a b ∧ divRoundUp a b ≤ top := by
+  refine ⟨divRoundUp32_eq a b ha hb (by omega), ?_, ?_⟩
+  · have h := (divRoundUp_least a b ha hb).1
+    by_contra hneg
+    have : divRoundUp a b * b ≤ -1 * b := Int.mul_le_mul_of_nonneg_right (by omega) (by omega)
+    omega
+  · have h := (divRoundUp_least a b ha hb).2 a (by nlinarith)
+    omega
+-- what the truncating variant computes for uint8_t: (255 + 2 - 1) mod 256 / 2 = 0, not 128
+example : divRoundUp 255 2 = 128 ∧ Int.tdiv ((255 + 2 - 1) % 256) 2 = 0 := by decide
+
 /-- the packed word as a sum: no two channels share a bit -/
 theorem pack4_eq_sum (c0 c1 c2 c3 : Nat) (h0 : c0 < 256) (h1 : c1 < 256) (h2 : c2 < 256) (h3 : c3 < 256) :
     pack4 c0 c1 c2 c3 = c0 + 256 * c1 + 65536 * c2 + 16777216 * c3 := by
